@@ -12,13 +12,16 @@ PROP = dict(
         "MM.C06.C06_groups_fit",
         "MM.C06.single_advertisement_lt_256",
         "MM.C06.C06_single_advertisement_refuted",
+        "MM.C06.C06_withdraw_intact",
+        "MM.C06.single_withdraw_lt_256",
+        "MM.C06.C06_single_withdraw_refuted",
         "MM.C06.C06_forward_intact",
     ],
     spec=True,
     chunk=200,
     timeout=600,
-    rule="ops announce/replay/forward run the REAL flood.Flooder + routing.Manager of agent A (AnnounceLocalRoutes, SendFullTable after learning groups "
-         "from remote origins, HandleRouteAdvertise->floodAdvertisementEncrypted) against a capturing PeerSender that does what a peer connection does "
+    rule="ops announce/replay/withdraw/forward run the REAL flood.Flooder + routing.Manager of agent A (AnnounceLocalRoutes, SendFullTable after learning groups "
+         "from remote origins, HandleRouteAdvertise->floodAdvertisementEncrypted; withdraw = announce, let B learn, then WithdrawLocalRoutes and B.HandleRouteWithdraw, with up to 3000 local routes) against a capturing PeerSender that does what a peer connection does "
          "(Frame.Encode, bytes, protocol.Decode), then a second real Flooder+Manager (neighbour B) handles every surviving frame and its four tables are dumped; "
          "route counts per family drawn from {0,1,2,254,255,256,257,300,511,512,1000} and mixtures, long domain/forward names that cross the 16 KiB payload "
          "limit with < 255 routes, forwarded advertisements padded to 16351..16384 bytes, paths up to 254 hops; the Lean model (split + C05 encode/decode + "
